@@ -264,3 +264,11 @@ Fixpoint spec_disasm (fuel : nat) (bs : list Z) : option (list (list Z * string)
           end
       end
   end.
+
+(* ---- field layouts: an index entry is two 32-bit words, a table entry starts with one,
+        in the byte order of the file; an index entry is 8 bytes ---- *)
+Definition u32_kind (le : bool) : string := if le then "u32le" else "u32be".
+Definition spec_eh_index_struct (le : bool) : list (string * string) :=
+  [("word0", u32_kind le); ("word1", u32_kind le)].
+Definition spec_eh_table_struct (le : bool) : list (string * string) := [("word0", u32_kind le)].
+Definition spec_ehabi_index_entry_size : Z := 8.
